@@ -3,9 +3,10 @@ import VermouthModel.C06
 /-!
 # C06 — subgraph matching is sound, complete and symmetry-reduced
 
-The model of this property is the shared **reference** `Iso` (DESIGN 4.1, 5.6): ISMAGS is not
-transcribed; the real code is compared with the reference by `harness/c06.py`.  The theorems
-below make that comparison trustworthy for every pair of graphs, of any size and numbering:
+This file: the shared **reference** `Iso` (DESIGN 4.1, 5.6), with which the real code is compared
+by `harness/c06.py`.  (The transcription of the ISMAGS search core and the theorems about it are in
+`C06_Ismags.lean`, `C06_IsmagsLcs.lean`, `C06_IsmagsSym.lean`.)  The theorems
+below make the reference comparison trustworthy for every pair of graphs, of any size and numbering:
 
 * the reference enumerator returns exactly the induced subgraph isomorphisms, each once
   (`allIsos_sound`, `allIsos_complete`, `allIsos_nodup`, also for a node predicate: `allIsosP_*`);
